@@ -56,6 +56,57 @@ def mkselfdict():
     d = {'a': 1}
     d['self'] = d
     return d
+def mkselfset():
+    s = set()
+    s.add(1)
+    l = [s]
+    try:
+        s.add(l)
+    except TypeError:
+        pass
+    return l
+class Liar:
+    def __repr__(self):
+        return 5
+    def __str__(self):
+        return 5
+    def __len__(self):
+        return -1
+    def __index__(self):
+        return 'x'
+    def __bool__(self):
+        return 2
+    def __iter__(self):
+        return 5
+    def __next__(self):
+        return self
+    def __contains__(self, x):
+        return 'y'
+    def __getitem__(self, k):
+        return self
+    def __int__(self):
+        return 'x'
+    def __float__(self):
+        return 'x'
+    def __bytes__(self):
+        return 'x'
+    def __enter__(self):
+        return self
+    def __exit__(self, *a):
+        return self
+class Liar2:
+    def __len__(self):
+        return 'x'
+    def __index__(self):
+        return 2 ** 70
+    def __iter__(self):
+        return self
+    def __next__(self):
+        raise StopIteration(self)
+    def __repr__(self):
+        raise ValueError
+    def __bool__(self):
+        raise KeyError
 def call(f, a, k):
     return f(*a, **k)
 `
@@ -166,6 +217,12 @@ func c10Universe(quick bool) []c10val {
 		pv("code", "pyfunc.__code__"),
 		pv("closure-func", "mkcell()"),
 		pv("closure-code", "mkcell().__code__"),
+		pv("liar", "Liar()"),
+		pv("liar2", "Liar2()"),
+		pv("call-iterator", "iter(lambda: (1,), (1,))"),
+		pv("self-list", "mkselflist()"),
+		pv("self-dict", "mkselfdict()"),
+		pv("self-set", "mkselfset()"),
 		pv("[()]", "[()]"),
 		pv("[('a',)]", "[('a',)]"),
 		pv("zip", "zip([1], [2])"),
@@ -176,8 +233,6 @@ func c10Universe(quick bool) []c10val {
 	}
 	if !quick {
 		vs = append(vs,
-			pv("self-list", "mkselflist()"),
-			pv("self-dict", "mkselfdict()"),
 			pv("deep-tuple", "((((((((1,),),),),),),),)"),
 			pv("filter", "filter(None, [0, 1])"),
 			pv("bytes-nonascii", "b'\\xff\\x00'"),
@@ -640,6 +695,10 @@ func c10Run(rc *core.RunCtx) {
 			"r = list(enumerate(map(f, a)))", "r = {x: f(x) for x in map(str, a)}", "r = {f(x) for x in a}", "p, q = map(f, a)", "p, *q = map(f, a)", "r = (lambda *z: z)(*map(f, a))",
 			"r = f(1) in a", "r = a == [f(x) for x in a]", "r = repr(list(map(f, a)))", "it = iter(a)\nf(0)\nr = list(it)", "it = iter(a)\nnext(it)\nf(0)\nr = list(it)",
 			"g = (f(x) for x in a)\nnext(g)\nf(0)\nr = list(g)", "r = list(reversed(a)) if hasattr(a, '__reversed__') else 0", "r = a[f(0):f(1)]", "a[f(0)] = f(1)", "del a[f(0)]", "r = len(a) + f(len(a))",
+			// an index object whose __index__ runs the mutation while the container is being indexed
+			"r = a[I()]", "r = a[I():4]", "r = a[0:I()]", "r = a[::I()]", "r = a[I():I():I()]", "a[I()] = 0", "a[I():4] = [7, 8]", "a[::I()] = [7]", "del a[I()]", "del a[I():4]", "del a[::I()]",
+			"r = a * I()", "a *= I()", "r = a[-I()]", "r = range(9)[I():len(a)]", "r = (1, 2, 3, 4)[I():len(a)]", "r = 'abcdef'[I():len(a)]", "a[len(a) - 1:I()] = a",
+			"r = a.index(1, I()) if hasattr(a, 'index') else 0", "r = a.pop(I()) if hasattr(a, 'pop') else 0", "a.insert(I(), 5) if hasattr(a, 'insert') else 0",
 		}
 		for _, ct := range conts {
 			for _, mu := range muts[ct.name] {
@@ -650,7 +709,7 @@ func c10Run(rc *core.RunCtx) {
 					if !rc.Take() {
 						continue
 					}
-					src := ct.init + "\ndef f(x):\n    " + mu + "\n    return x\n" + cn + "\n"
+					src := ct.init + "\ndef f(x):\n    " + mu + "\n    return x\nclass I:\n    def __index__(self):\n        f(0)\n        return 1\n" + cn + "\n"
 					f := core.Fields{"part": "mutating-callbacks", "container": ct.name, "mutation": mu, "op": strings.SplitN(cn, "\n", 2)[0]}
 					rc.Guard(f, func() string { return src }, func() {
 						err := runSrc(src, py.ExecMode, py.None, py.None, py.None)
@@ -661,6 +720,79 @@ func c10Run(rc *core.RunCtx) {
 					})
 				}
 			}
+		}
+	}
+	// unbounded recursion written in Python, through every way one Python-level action can
+	// start another: the host must get an exception, not a stack overflow
+	rc.Part = "recursion"
+	{
+		progs := []string{
+			"def f():\n    return f()\nf()\n",
+			"def f(n):\n    return f(n + 1) + 1\nf(0)\n",
+			"def a():\n    return b()\ndef b():\n    return a()\na()\n",
+			"f = lambda: f()\nf()\n",
+			"def f(*a, **k):\n    return f(*a, **k)\nf(1, x=2)\n",
+			"class R:\n    def __repr__(self):\n        return repr(self)\nrepr(R())\n",
+			"class R:\n    def __str__(self):\n        return str(self)\nstr(R())\n",
+			"class R:\n    def __repr__(self):\n        return repr([self])\nrepr(R())\n",
+			"class R:\n    def __repr__(self):\n        return '%r' % (self,)\nrepr(R())\n",
+			"class G:\n    def __getattr__(self, n):\n        return getattr(self, n)\nG().x\n",
+			"class G:\n    def __getattr__(self, n):\n        return self.y\nG().x\n",
+			"class G:\n    def __getitem__(self, k):\n        return self[k]\nG()[0]\n",
+			"class G:\n    def __len__(self):\n        return len(self)\nlen(G())\n",
+			"class G:\n    def __bool__(self):\n        return bool(self)\nbool(G())\n",
+			"class G:\n    def __bool__(self):\n        return not self\nif G():\n    pass\n",
+			"class G:\n    def __iter__(self):\n        return iter(self)\nlist(G())\n",
+			"class G:\n    def __next__(self):\n        return next(self)\n    def __iter__(self):\n        return self\nfor x in G():\n    pass\n",
+			"class G:\n    def __contains__(self, x):\n        return x in self\n1 in G()\n",
+			"class G:\n    def __index__(self):\n        return [0][self]\n[0][G()]\n",
+			"class G:\n    def __init__(self):\n        G()\nG()\n",
+			"class G:\n    def __enter__(self):\n        with self:\n            pass\n    def __exit__(self, *a):\n        pass\nwith G():\n    pass\n",
+			"class G:\n    def __setattr__(self, k, v):\n        self.x = v\nG().x = 1\n",
+			"class G:\n    def __delattr__(self, k):\n        del self.x\ndel G().x\n",
+			"class G:\n    def __getattribute__(self, k):\n        return self.x\nG().x\n",
+			"def g():\n    yield from g()\nnext(g())\n",
+			"def g():\n    for x in g():\n        yield x\nlist(g())\n",
+			"def g():\n    yield next(g())\nnext(g())\n",
+			"def f(x):\n    return list(map(f, [x]))\nf(1)\n",
+			"def f(x):\n    return sorted([x, x], key=f)\nf(1)\n",
+			"def f(x):\n    return [f(y) for y in [x]]\nf(1)\n",
+			"def f(x):\n    return max([x], key=f)\nf(1)\n",
+			"def f(x):\n    return list(filter(f, [x]))\nf(1)\n",
+			"def f():\n    return eval('f()')\nf()\n",
+			"def f():\n    exec('f()')\nf()\n",
+			"def f():\n    try:\n        f()\n    finally:\n        pass\nf()\n",
+			"def f():\n    try:\n        return f()\n    except KeyError:\n        return 0\nf()\n",
+			"def f():\n    with CM:\n        f()\nclass C:\n    def __enter__(self):\n        return self\n    def __exit__(self, *a):\n        return False\nCM = C()\nf()\n",
+			"def deco(fn):\n    return deco(fn)\n@deco\ndef f():\n    pass\n",
+			"class M:\n    def m(self):\n        return self.m()\nM().m()\n",
+			"class M:\n    @classmethod\n    def m(cls):\n        return cls.m()\nM.m()\n",
+			"class M:\n    @staticmethod\n    def m():\n        return M.m()\nM.m()\n",
+			"class M:\n    @property\n    def p(self):\n        return self.p\nM().p\n",
+			"class A:\n    def m(self):\n        return B().m()\nclass B(A):\n    def m(self):\n        return super().m()\nB().m()\n",
+			"def f(n=0):\n    def g():\n        return f(n + 1)\n    return g()\nf()\n",
+			"import sys\ndef f():\n    return f()\ntry:\n    f()\nexcept RuntimeError:\n    pass\ndef g(n):\n    return 0 if n == 0 else g(n - 1)\ng(500)\n",
+			"def f():\n    return f()\nfor i in range(3):\n    try:\n        f()\n    except RuntimeError:\n        pass\n",
+			"l = []\nfor i in range(3000):\n    l = [l]\nrepr(l)\nl == l\n",
+			"d = {}\nfor i in range(3000):\n    d = {'k': d}\nstr(d)\nd == {'k': d}\n",
+			"t = ()\nfor i in range(3000):\n    t = (t,)\nrepr(t)\nhash(t) if hasattr(t, '__hash__') else 0\n",
+		}
+		for i, src := range progs {
+			if rc.Expired() || rc.Done() {
+				return
+			}
+			if !rc.Take() {
+				continue
+			}
+			src := src
+			f := core.Fields{"part": "recursion", "program": itoa(i), "src": src}
+			rc.Guard(f, func() string { return src }, func() {
+				err := runSrc(src, py.ExecMode, py.None, py.None, py.None)
+				rc.Eval(outcomeOf(err), src)
+				if rc.WantSample() {
+					rc.Sample(map[string]string{"program": src, "outcome": outcomeOf(err)})
+				}
+			})
 		}
 	}
 	// setitem with three operands over the reduced universe
@@ -692,8 +824,8 @@ func init() {
 	core.Register(&core.Check{
 		ID:    "C10",
 		Level: "model_checking",
-		Rule: "callables = every entry of builtins plus every attribute of every built-in type's dictionary (reached through an instance and through the class) x all argument tuples of arity 0-2 over a universe of ~70 values of every type (None, bools, ints at the word limits and beyond, floats incl. inf/nan/-0.0, complex, str incl. non-BMP, bytes, tuples, lists, dicts, sets, ranges, slices, generators in every state, iterators, functions, methods, classes, instances, modules, exceptions, code, Ellipsis, NotImplemented; thorough adds self-referential containers) - thorough: arity 3 over a 21-value sub-universe - and one keyword argument; " +
-			"every binary/augmented/unary operator, subscript, slice, attribute, call, iteration, format and 30 two-operand statement forms over the universe squared, through the Go API and as compiled source; 37 consumers (sort/sorted/min/max with key, map/filter/zip/enumerate, comprehensions, for, unpacking, star-call, slice assignment from an iterator, suspended iterators and generators) x callbacks that shrink, empty, grow, replace or sort the very container being processed (list, dict, set). Fresh values per case. Oracle: the host neither panics, aborts nor hangs; any Python exception is acceptable. Every case is non-trivial.",
+		Rule: "callables = every entry of builtins plus every attribute of every built-in type's dictionary (reached through an instance and through the class) x all argument tuples of arity 0-2 over a universe of ~70 values of every type (None, bools, ints at the word limits and beyond, floats incl. inf/nan/-0.0, complex, str incl. non-BMP, bytes, tuples, lists, dicts, sets, ranges, slices, generators in every state, iterators, functions, methods, classes, instances, instances whose special methods return values of the wrong type or raise, modules, exceptions, code with and without free variables, Ellipsis, NotImplemented, self-referential list/dict/set, iter(callable, tuple sentinel)) - thorough: arity 3 over a 21-value sub-universe - and one keyword argument; " +
+			"every binary/augmented/unary operator, subscript, slice, attribute, call, iteration, format and 30 two-operand statement forms over the universe squared, through the Go API and as compiled source; 58 consumers (sort/sorted/min/max with key, map/filter/zip/enumerate, comprehensions, for, unpacking, star-call, slice assignment from an iterator, suspended iterators and generators, index objects whose __index__ runs the mutation in item/slice get, set and delete and in repetition) x callbacks that shrink, empty, grow, replace or sort the very container being processed (list, dict, set). 49 programs that recurse without bound through every way one Python-level action starts another (calls, lambdas, special methods, generators, map/sorted/filter callbacks, eval/exec, with, decorators, properties, super) or build 3000-deep nested containers. Fresh values per case. Oracle: the host neither panics, aborts nor hangs; any Python exception is acceptable. Every case is non-trivial.",
 		Run:         c10Run,
 		HangAfterS:  25,
 		Assumptions: []string{"legitimately unbounded work is excluded by construction: pow/**/<< with astronomically large exponents; input() (blocks on stdin)", "side effects are confined to the worker's scratch directory; stdin is empty"},
